@@ -34,7 +34,13 @@ def run(ck, prog):
     ck.attempt(check_api, ck, prog, [("get_HTMLColorString", "get_HTMLColorString", None)])
     f = prog.fn(SP, "SequenceParameters.set_HTMLColorResiduePalette")
     calls = [n for n in ast.walk(f.node) if isinstance(n, ast.Call)]
-    ok = len(calls) == 1 and unparse(calls[0]) == "self.SeqObj.set_HTMLColorResiduePalette(%s)" % f.params()[1]
+    ok = False
+    if len(calls) == 1:
+        from lcsa import bind as _bind
+        callee_, b_ = _bind.bind(prog, f, calls[0])
+        # positional or keyword: the caller's dictionary bound to the backend setter's dictionary parameter, nothing else passed
+        ok = callee_ is not None and callee_.key == SEQ + ":Sequence.set_HTMLColorResiduePalette" and unparse(calls[0].func) == "self.SeqObj.set_HTMLColorResiduePalette" \
+            and len(b_) == 1 and isinstance(next(iter(b_.values())), ast.Name) and next(iter(b_.values())).id == f.params()[1] and next(iter(b_)) == callee_.params()[1]
     ck.ob("BIND-api", f.mod.relpath + ":" + f.qual, ok, expected="self.SeqObj.set_HTMLColorResiduePalette(<the argument>)",
           found=[unparse(c) for c in calls], slot="forwards", where=f.loc())
     # ... and it is the caller's dictionary that is forwarded: a replacement of the parameter on the way is looked at.  Replacing None (not a
